@@ -12,7 +12,7 @@ CHECK_WITHOUT_PROOF = True
 SHRINK_GUARD = 0      # which of the booleans evaluated with the verdict certifies the theorem's hypotheses
 TRUSTED = common.TRUSTED_COMMON
 ASSUMPTIONS = common.ASSUME_COMMON
-RULE = 'random API histories (1-3 threads, 4-14 calls, API-call-atomic) over a random universe of single locks, poisonable wrappers and collections of every kind / container / nesting depth <= 2 sharing leaves, with random holds of other threads present from the start; vocabulary adds Debug formatting of every lock / collection, is_poisoned, clear_poison, while locks are held by other threads and by the caller itself; observation = raw operations + hold table; non-trivial = a non-acquiring call while something is held; distinct = scenario text; plus, exhaustively, every accessor (get_mut, as_mut, child_mut, iter_mut, child, as_ref, iter, Debug, is_poisoned, clear_poison, into_child, into_inner) of every owner kind (Mutex, RwLock, Poisonable, owned / retrying / boxed / ref collection of 1-3 locks) on an object whose locks are free or held through a leaked guard: the vector of held member locks seen by another thread must be the same before and after, and the call must not wait'
+RULE = 'random API histories (1-3 threads, 4-14 calls, API-call-atomic) over a random universe of single locks, poisonable wrappers and collections of every kind / container / nesting depth <= 2 sharing leaves, with random holds of other threads present from the start; vocabulary adds Debug formatting of every lock / collection, is_poisoned, clear_poison, while locks are held by other threads and by the caller itself; observation = raw operations + hold table; non-trivial = a non-acquiring call while something is held; distinct = scenario text; plus, exhaustively, every accessor (get_mut, as_mut, child_mut, iter_mut, child, as_ref, iter, Debug, is_poisoned, clear_poison, into_child, into_inner) of every owner kind (Mutex, RwLock, Poisonable, owned / retrying / boxed / ref collection of 1-3 locks) on an object whose locks are free or held through a leaked guard: the vector of held member locks seen by another thread must be the same before and after, and the call must not wait; and every non-acquiring operation of every guard type (Debug, Display, Hash, Deref, DerefMut, AsRef, AsMut) on a live guard: holds unchanged while the guard lives, no wait, everything free after the guard is dropped'
 EXHAUSTIVE = {"quick": False, "thorough": False}
 
 
@@ -36,6 +36,18 @@ ACCESSORS = {
     "boxed": (["none", "ex"], ["child", "as_ref", "iter", "fmt", "into_child"], [1, 2, 3]),
     "ref": (["none", "ex"], ["as_ref", "iter", "fmt"], [1, 2, 3]),
 }
+# non-acquiring operations on a LIVE guard: the holds stay as they are while the guard lives, the call does not wait, and
+# dropping the guard afterwards frees everything
+GUARD_OPS = ["g_fmt", "g_hash", "g_deref", "g_as_ref"]
+GUARD_ACCESSORS = {
+    "mutex": (["gex"], GUARD_OPS + ["g_display", "g_deref_mut", "g_as_mut"], [1]),
+    "rwlock": (["gex", "gsh"], GUARD_OPS + ["g_display", "g_deref_mut", "g_as_mut"], [1]),
+    "poison": (["gex"], GUARD_OPS + ["g_display", "g_deref_mut", "g_as_mut"], [1]),
+    "owned": (["gex"], GUARD_OPS + ["g_deref_mut", "g_as_mut"], [1, 2, 3]),
+    "retry": (["gex"], GUARD_OPS + ["g_deref_mut", "g_as_mut"], [1, 2, 3]),
+    "boxed": (["gex"], GUARD_OPS + ["g_deref_mut", "g_as_mut"], [1, 2, 3]),
+    "ref": (["gex"], GUARD_OPS + ["g_deref_mut", "g_as_mut"], [1, 2, 3]),
+}
 
 
 def acc_cases():
@@ -44,6 +56,13 @@ def acc_cases():
         for n in ns:
             for held in helds:
                 for acc in accs:
+                    out.append(ACase(f"c17a_{len(out)}", owner, n, held, acc))
+    for owner, (helds, accs, ns) in GUARD_ACCESSORS.items():
+        for n in ns:
+            for held in helds:
+                for acc in accs:
+                    if held == "gsh" and acc in ("g_deref_mut", "g_as_mut"):
+                        continue
                     out.append(ACase(f"c17a_{len(out)}", owner, n, held, acc))
     return out
 
